@@ -43,6 +43,10 @@ def make_tokens(kinds, inv=0):
             toks.append(("flag", "d", (shx.Sym(f"X{inv}_{i}"),)))
         elif k == "o":
             toks.append(("flag", "o", (shx.Sym(f"Y{inv}_{i}"),)))
+        elif k == "orel":
+            toks.append(("flag", "o", (shx.Sym(f"Yrel{inv}_{i}", relative=True),)))
+        elif k == "drel":
+            toks.append(("flag", "d", (shx.Sym(f"Xrel{inv}_{i}", relative=True),)))
         elif k == "x":
             toks.append(("flag", "x", None))
         elif k == "dmiss":
@@ -65,9 +69,10 @@ def classify(kinds):
             return {"kind": "bad_flag"}
     if rest:
         return {"kind": "stray"}
-    d_idx = max([i for i, k in enumerate(kinds) if k == "d"], default=None)
-    o_idx = max([i for i, k in enumerate(kinds) if k == "o"], default=None)
-    return {"kind": "ok", "compile": "r" not in flags, "run": "c" not in flags, "d": d_idx, "o": o_idx}
+    d_idx = max([i for i, k in enumerate(kinds) if k in ("d", "drel")], default=None)
+    o_idx = max([i for i, k in enumerate(kinds) if k in ("o", "orel")], default=None)
+    return {"kind": "ok", "compile": "r" not in flags, "run": "c" not in flags, "d": d_idx, "o": o_idx,
+            "d_rel": d_idx is not None and kinds[d_idx] == "drel", "o_rel": o_idx is not None and kinds[o_idx] == "orel"}
 
 
 def check_path(e, p, inv, kinds, backend):
@@ -124,7 +129,8 @@ def check_path(e, p, inv, kinds, backend):
             else:
                 fl = delivered[2]
                 if exp["d"] is not None:
-                    want = ("echo", f"<X{inv}_{exp['d']}>")
+                    # a relative operand names a file relative to the directory the CALLER stands in (/LOCAL in the model)
+                    want = ("echo", f"/LOCAL/<Xrel{inv}_{exp['d']}>" if exp.get("d_rel") else f"<X{inv}_{exp['d']}>")
                     if fl != want:
                         viol.append(f"-d operand is not the sole input: job read {fl}, expected {want}")
                 else:
@@ -132,7 +138,7 @@ def check_path(e, p, inv, kinds, backend):
                         viol.append(f"without -d the job must read the packaged filelist.txt, read {fl}")
                 dshow = shx.show(dest)
                 if exp["o"] is not None:
-                    y = f"<Y{inv}_{exp['o']}>"
+                    y = f"/LOCAL/<Yrel{inv}_{exp['o']}>" if exp.get("o_rel") else f"<Y{inv}_{exp['o']}>"
                     if dshow not in (y, y + "/ANALYSIS.root"):
                         viol.append(f"-o operand {y} is not where the output was delivered ({dshow})")
                     elif inv == 0 and dshow == y + "/ANALYSIS.root":
@@ -214,6 +220,10 @@ def replay_path(e, p, history_kinds, backend, root: FsPath):
                 symmap[f"X{inv}_{i}"] = str(root / "ext" / f"in{inv}_{i}.root")
             if k == "o":
                 symmap[f"Y{inv}_{i}"] = str(root / "ext" / f"out{inv}_{i}")
+            if k == "orel":
+                symmap[f"Yrel{inv}_{i}"] = f"outrel{inv}_{i}"
+            if k == "drel":
+                symmap[f"Xrel{inv}_{i}"] = f"inrel{inv}_{i}.root"
     cvs = "cvsroot"
     mentioned = set()
 
@@ -291,6 +301,10 @@ def replay_path(e, p, history_kinds, backend, root: FsPath):
                 argv += ["-d", symmap[f"X{inv}_{i}"]]
             elif k == "o":
                 argv += ["-o", symmap[f"Y{inv}_{i}"]]
+            elif k == "orel":
+                argv += ["-o", symmap[f"Yrel{inv}_{i}"]]
+            elif k == "drel":
+                argv += ["-d", symmap[f"Xrel{inv}_{i}"]]
             elif k == "dmiss":
                 argv.append("-d")
             elif k == "w":
@@ -398,6 +412,8 @@ def main():
         vectors += [list(c) for c in itertools.product(["c", "r", "d", "o"], repeat=4)]
     hist_alpha = [["c"], ["r", "d", "o"], ["r"], [], ["d", "o"], ["r", "o"]]
     histories = [[v] for v in vectors]
+    # operands given RELATIVE to the caller's directory (the scripts change directory before they use them)
+    histories += [[["orel"]], [["d", "orel"]], [["drel", "o"]], [["drel", "orel"]], [["c"], ["r", "drel", "orel"]], [["c"], ["r", "orel"]]]
     hl = 2 if a.tier == "quick" else 3
     for n in range(2, hl + 1):
         for combo in itertools.product(hist_alpha, repeat=n):
